@@ -47,6 +47,9 @@ I64Set == { q \in ( Around(B!Zero, {-10, -7, -3, -2, -1, 0, 1, 2, 3, 7, 10, 1000
                     \cup Around(B!Pow2(62), {-1, 0, 1}) \cup Around(B!Neg(B!Pow2(62)), {-1, 0, 1})
                     \cup Around(NPC, Near) \cup Around(B!Neg(NPC), Near)
                     \cup Around(B!MulInt(NPC, 2), Near) \cup Around(B!MulInt(NPC, -2), Near)
+                    \* the count of each unit at which the product reaches the bounds of a Duration
+                    \cup UNION { Around(B!DivF(MaxV, UnitNs[u]), {-1, 0, 1, 2}) : u \in 1..9 }
+                    \cup UNION { Around(B!Neg(B!DivF(MaxV, UnitNs[u])), {-2, -1, 0, 1}) : u \in 1..9 }
                     \cup { B!Pow10(9), B!Pow10(18), B!Neg(B!Pow10(18)), B!FromInt(86400), B!FromInt(36525),
                            B!FromInt(-36525), B!DivF(I64MAX, B!FromInt(86400)), B!DivF(I64MAX, B!Pow10(9)),
                            B!Add(B!DivF(I64MAX, B!Pow10(9)), B!FromInt(1)),
